@@ -73,13 +73,8 @@ class World:
         trecs = [(ri, rn, an, i + 1, tpos[i]) for i, (an, rn, ri) in enumerate(tatoms)]
         self.tsys = System(MemFile(gro_text(trecs), 'tgt.gro'), MemFile(itp_text('TGTMOL', tatoms, tedges), 'TGTMOL.itp'))
         self.tgt = self.tsys[0]
-        orecs = [(1, 'OTH', f'X{i + 1}', i + 1, base[i] + 0.3) for i in range(nr)]
-        self.osys = System(MemFile(gro_text(orecs), 'oth.gro'),
-                           MemFile(itp_text('OTHER', [(f'X{i + 1}', 'OTH', 1) for i in range(nr)], redges), 'OTHER.itp'))
-        self.other = self.osys[0]
-        # same molecule name as the reference, atoms a strict extension / a strict prefix of it
-        self.longer = self._same_name(ratoms + [('B9', ratoms[-1][1], ratoms[-1][2])], redges + [(nr - 1, nr)], base)
-        self.shorter = self._same_name(ratoms[:-1], [e for e in redges if nr - 1 not in e], base)
+        self._lazy = {}
+        self._base, self._ratoms, self._redges, self._nr = base, ratoms, redges, nr
         # argument 2 collides with argument 0 on everything a cache could be keyed on except the
         # conformation: same geometric centre (to rounding), same first atom position is NOT kept
         a0 = self.args[0].atoms_positions
@@ -95,6 +90,38 @@ class World:
         self.tresnames = [x[0] for x in self.tresnames]
         self.snap()
 
+    # rarely used molecules are built on first use (each costs a System parse)
+    @property
+    def other(self):
+        if 'other' not in self._lazy:
+            from gaddlemaps.components import System
+            nr, base = self._nr, self._base
+            orecs = [(1, 'OTH', f'X{i + 1}', i + 1, base[i] + 0.3) for i in range(nr)]
+            osys = System(MemFile(gro_text(orecs), 'oth.gro'),
+                          MemFile(itp_text('OTHER', [(f'X{i + 1}', 'OTH', 1) for i in range(nr)], self._redges),
+                                  'OTHER.itp'))
+            self._lazy['other'] = osys[0]
+            self._keep = getattr(self, '_keep', []) + [osys]
+            self.snapshot['other'] = self._lazy['other'].atoms_positions.copy()
+        return self._lazy['other']
+
+    @property
+    def longer(self):
+        if 'longer' not in self._lazy:
+            ra, nr = self._ratoms, self._nr
+            self._lazy['longer'] = self._same_name(ra + [('B9', ra[-1][1], ra[-1][2])], self._redges + [(nr - 1, nr)],
+                                                   self._base)
+            self.snapshot['longer'] = self._lazy['longer'].atoms_positions.copy()
+        return self._lazy['longer']
+
+    @property
+    def shorter(self):
+        if 'shorter' not in self._lazy:
+            self._lazy['shorter'] = self._same_name(self._ratoms[:-1],
+                                                    [e for e in self._redges if self._nr - 1 not in e], self._base)
+            self.snapshot['shorter'] = self._lazy['shorter'].atoms_positions.copy()
+        return self._lazy['shorter']
+
     def _same_name(self, atoms, edges, base):
         from gaddlemaps.components import System
         pts = np.vstack([base, base[-1:] + 0.2])[:len(atoms)]
@@ -104,11 +131,13 @@ class World:
         return s[0]
 
     def tracked(self):
-        out = {'ref': self.ref, 'tgt': self.tgt, 'other': self.other, 'longer': self.longer, 'shorter': self.shorter}
+        out = {'ref': self.ref, 'tgt': self.tgt}
+        out.update(self._lazy)
         for i, a in enumerate(self.args):
             out[f'arg{i}'] = a
         for i, r in enumerate(self.results):
-            out[f'result{i}'] = r
+            if i >= len(self.results) - 8:          # the eight most recently returned molecules
+                out[f'result{i}'] = r
         return out
 
     def snap(self):
